@@ -1,9 +1,183 @@
 import Oas3Model.Model.Responses
+import Oas3Model.Proofs.StatusDispatch
+/-
+C04 — status dispatch of the generated client.
+
+Model (differentially tested against the Rust generator): `Model/Status.lean`, `Model/Responses.lean`
+over the tables regenerated from the Rust sources (`Gen/Status.lean`).
+Proof modules: `Proofs/StatusTables.lean` (kernel-evaluated table facts), `Proofs/Status.lean`
+(token / key lemmas), `Proofs/StatusDispatch.lean` (sorting, variants, chain evaluation).
+-/
 namespace Oas3.Props.C04
 open Oas3.Status Oas3.Resp Oas3.Gen.Status
+open Oas3.Proofs.Status (digitC)
+
+set_option maxRecDepth 100000
 
 /-- every named token has a row in each regenerated table -/
 theorem tables_total : ∀ t ∈ tokens, (lookup t codeTbl).isSome ∧ (lookup t variantNameTbl).isSome ∧ (lookup t asStrTbl).isSome := by
   decide
+
+/-! ## A. table facts -/
+
+/-- `from_str ∘ as_str` is the identity on the named tokens. -/
+theorem fromStr_asStr : ∀ t ∈ tokens, fromStr (asStr (.named t)) = .named t :=
+  Oas3.Proofs.Status.fromStr_asStr
+
+/-- the `http::StatusCode` constant emitted for an exact token has the token's numeric value. -/
+theorem exact_status : ∀ t ∈ tokens, ∀ c, code (.named t) = some c → httpStatus (.named t) = c :=
+  Oas3.Proofs.Status.exact_status
+
+/-- … hence the emitted condition of an exact token is `status == code`. -/
+theorem exact_cond : ∀ t ∈ tokens, ∀ c, code (.named t) = some c → ∀ n, Oas3.Status.cond (.named t) n = (n == c) :=
+  Oas3.Proofs.Status.exact_cond
+
+/-- the range key `kXX` (`k ∈ 1..5`, either case of each `X`; `digitC k = Char.ofNat (48 + k)`) is a named,
+non-default token without numeric code whose emitted condition is `k*100 ≤ status < (k+1)*100`. -/
+theorem range_cond (k : Nat) (h1 : 1 ≤ k) (h5 : k ≤ 5) (x y : Char) (hx : x ∈ ['X', 'x']) (hy : y ∈ ['X', 'x']) :
+    ∃ t ∈ tokens, fromStr [digitC k, x, y] = .named t ∧ code (.named t) = none ∧ isDefault (.named t) = false ∧
+      ∀ n, Oas3.Status.cond (.named t) n = (decide (k * 100 ≤ n) && decide (n < (k + 1) * 100)) := by
+  obtain ⟨t, ht, h⟩ := Oas3.Proofs.Status.range_cond k h1 h5 x y hx hy
+  exact ⟨t, ht, h.1, h.2.1, h.2.2.1, h.2.2.2.2⟩
+
+/-- the literal instances, for readability -/
+example : fromStr "2XX".toList = .named "Success2XX".toList ∧ fromStr "4xx".toList = .named "ClientError4XX".toList := by
+  decide +kernel
+
+/-- every exact key `c.to_string()`, `100 ≤ c ≤ 599`, (table row or numeric fallback) yields a non-default
+token with code `c` whose emitted condition is `status == c`. -/
+theorem fromStr_exact : ∀ c, 100 ≤ c → c ≤ 599 →
+    code (fromStr (natChars c)) = some c ∧ isDefault (fromStr (natChars c)) = false ∧
+    ∀ n, Oas3.Status.cond (fromStr (natChars c)) n = (n == c) :=
+  Oas3.Proofs.Status.fromStr_exact
+
+theorem fromStr_default :
+    fromStr "default".toList = .named "Default".toList ∧ isDefault (.named "Default".toList) = true :=
+  Oas3.Proofs.Status.fromStr_default
+
+/-- distinct non-default named tokens have distinct variant names; `Status<code>` never collides with them. -/
+theorem variant_names_distinct :
+    (∀ t₁ ∈ tokens, ∀ t₂ ∈ tokens, t₁ ≠ "Default".toList → t₂ ≠ "Default".toList → t₁ ≠ t₂ →
+      variantName (.named t₁) ≠ variantName (.named t₂)) ∧
+    (∀ c, ∀ t ∈ tokens, variantName (.unknown c) ≠ variantName (.named t)) :=
+  ⟨fun t₁ h₁ t₂ h₂ d₁ d₂ hne => Oas3.Proofs.Status.variant_names_distinct t₁ t₂ h₁ h₂ d₁ d₂ hne,
+   fun c t ht => Oas3.Proofs.Status.variantName_unknown_ne_named c t ht⟩
+
+theorem exactKey_natChars {k : List Char} {c : Nat} (h : exactKey k = some c) :
+    k = natChars c ∧ 100 ≤ c ∧ c ≤ 599 :=
+  Oas3.Proofs.Status.exactKey_natChars h
+
+theorem rangeKey_shape {k : List Char} {j : Nat} (h : rangeKey k = some j) :
+    1 ≤ j ∧ j ≤ 5 ∧ ∃ x y, x ∈ ['X', 'x'] ∧ y ∈ ['X', 'x'] ∧ k = [digitC j, x, y] :=
+  Oas3.Proofs.Status.rangeKey_shape h
+
+/-! ## B. ordering -/
+
+/-- in the sorted responses map an exact key precedes the range key of the same hundred. -/
+theorem exact_before_range (a b : List Char) :
+    (exactKey a).isSome → (rangeKey b).isSome → a.head? = b.head? → strLt a b = true :=
+  Oas3.Proofs.Status.exact_before_range a b
+
+/-- `sortKeys` yields keys in strictly increasing `strLt` order. -/
+theorem sortKeys_sorted {β} (l : List (List Char × β)) :
+    (sortKeys l).Pairwise (fun p q => strLt p.1 q.1 = true) :=
+  Oas3.Proofs.Status.sortKeys_sorted l
+
+/-! ## C. dispatch -/
+
+/-- for a handler list whose bodies are all `.single`, the chain returns the first handler whose
+condition holds on the status. -/
+theorem evalChainAux_first (n : Nat) (ct : List Char) (hs : List (CondE × Body))
+    (hsingle : ∀ h ∈ hs, ∃ k, h.2 = .single k) :
+    evalChainAux n ct hs = (hs.find? (fun h => evalCond n h.1)).map
+      (fun h => match h.2 with | .single k => k | .dispatch _ => Oas3.Proofs.Status.noCase) :=
+  Oas3.Proofs.Status.evalChainAux_first n ct hs hsingle
+
+/-- the emitted condition of a token evaluates as `cond` -/
+theorem evalCond_condOf (tok : Tok) (n : Nat) : evalCond n (condOf tok) = Oas3.Status.cond tok n :=
+  Oas3.Proofs.Status.evalCond_condOf tok n
+
+/-- well-formed responses object: canonical keys, pairwise distinct tokens, at most one media type per
+status (so every handler body is `.single`). -/
+def WF (rs : List (List Char × List MediaDecl)) : Prop :=
+  (∀ p ∈ rs, canonicalKey p.1 = true) ∧ (rs.map (fun p => fromStr p.1)).Nodup ∧ (∀ p ∈ rs, p.2.length ≤ 1)
+
+/-- The client picks the right response for EVERY status `n` (no range restriction needed) and every
+content type: the chosen variant is the one built from the exact key of `n` if declared, else from its
+`NXX` key, else the default (declared `default`, or the synthetic `Unknown`).
+(`rs ≠ []` is implied by `chainOf rs = some ch`.) -/
+theorem dispatch_spec (rs : List (List Char × List MediaDecl)) (hwf : WF rs)
+    (ch : Chain) (hch : chainOf rs = some ch) (n : Nat) (ct : List Char) :
+    ∃ v ∈ variantsOf rs, v.name = (evalChain ch n ct).variant ∧
+      v.tok = (if (rs.map (·.1)).contains (specKey (rs.map (·.1)) n)
+               then fromStr (specKey (rs.map (·.1)) n) else defaultTok) := by
+  obtain ⟨v, hv, he, ht⟩ := Oas3.Proofs.Status.dispatch_core rs hwf.1 hwf.2.1 hwf.2.2 ch hch n ct
+  exact ⟨v, hv, by rw [he, Oas3.Proofs.Status.extractOf_variant], ht⟩
+
+/-- stronger form: the whole executed case (variant, payload extraction, payload type) is the one
+`extractOf` builds for that variant. -/
+theorem dispatch_spec_case (rs : List (List Char × List MediaDecl)) (hwf : WF rs)
+    (ch : Chain) (hch : chainOf rs = some ch) (n : Nat) (ct : List Char) :
+    ∃ v ∈ variantsOf rs, evalChain ch n ct = extractOf (primaryCat v.medias) v ∧
+      v.tok = (if (rs.map (·.1)).contains (specKey (rs.map (·.1)) n)
+               then fromStr (specKey (rs.map (·.1)) n) else defaultTok) :=
+  Oas3.Proofs.Status.dispatch_core rs hwf.1 hwf.2.1 hwf.2.2 ch hch n ct
+
+/-- the variant names of the generated enum are pairwise distinct, so `v.name = …` in `dispatch_spec`
+identifies the variant uniquely. -/
+theorem variant_names_nodup (rs : List (List Char × List MediaDecl)) (hwf : WF rs) :
+    ((variantsOf rs).map (·.name)).Nodup :=
+  Oas3.Proofs.Status.variant_names_nodup_core rs hwf.1 hwf.2.1 hwf.2.2
+
+/-- a non-empty well-formed responses object always yields a chain (so `dispatch_spec` is not vacuous). -/
+theorem chainOf_isSome (rs : List (List Char × List MediaDecl)) (hwf : WF rs) (hne : rs ≠ []) :
+    (chainOf rs).isSome = true :=
+  Oas3.Proofs.Status.chainOf_isSome_core rs hwf.2.1 hwf.2.2 hne
+
+/-! ## D. recorded defects of the real generator (the faithful model reproduces them) -/
+
+/-- two media types with different payloads on `200` give a content-type dispatch block; a `200` with an
+unmatched content type FALLS THROUGH to the `2XX` handler and is answered by the `Success` variant. -/
+theorem cex_fallthrough :
+    let rs : List (List Char × List MediaDecl) :=
+      [("200".toList, [{ ct := "application/json".toList, schema := some "Pet".toList, custom := true },
+                       { ct := "text/plain".toList, schema := some "String".toList, stringLike := true }]),
+       ("2XX".toList, [{ ct := "application/json".toList, schema := some "i64".toList }])]
+    (chainOf rs).map (fun ch => (evalChain ch 200 "application/xml".toList).variant) = some "Success".toList := by
+  decide +kernel
+
+/-- a non-canonical numeric key (`"99"`) becomes `Status99` whose condition is `status == 500`
+(`from_u16(99)` fails ⇒ INTERNAL_SERVER_ERROR): a 500 is answered by the `Status99` variant. -/
+theorem cex_noncanonical :
+    let rs : List (List Char × List MediaDecl) := [("200".toList, []), ("99".toList, [])]
+    (chainOf rs).map (fun ch => (evalChain ch 500 "application/json".toList).variant) = some "Status99".toList := by
+  decide +kernel
+
+/-- server side: the status emitted for the `3XX` token is 500 (no arm in `HttpStatusCode`). -/
+theorem cex_redirection_500 : httpStatus (.named "Redirection3XX".toList) = 500 := by
+  decide +kernel
+
+/-! ## E. non-vacuity -/
+
+/-- a concrete 4-key responses object -/
+def rs4 : List (List Char × List MediaDecl) :=
+  [("404".toList, []),
+   ("200".toList, [{ ct := "application/json".toList, schema := some "Pet".toList, custom := true }]),
+   ("default".toList, []),
+   ("4XX".toList, [{ ct := "application/json".toList, schema := some "Error".toList, custom := true }])]
+
+theorem rs4_wf : WF rs4 := by
+  refine ⟨?_, ?_, ?_⟩ <;> decide +kernel
+
+example : ∃ ch, chainOf rs4 = some ch ∧ ∀ n ct, ∃ v ∈ variantsOf rs4, v.name = (evalChain ch n ct).variant ∧
+    v.tok = (if (rs4.map (·.1)).contains (specKey (rs4.map (·.1)) n)
+             then fromStr (specKey (rs4.map (·.1)) n) else defaultTok) := by
+  obtain ⟨ch, hch⟩ := Option.isSome_iff_exists.mp (chainOf_isSome rs4 rs4_wf (by decide))
+  exact ⟨ch, hch, fun n ct => dispatch_spec rs4 rs4_wf ch hch n ct⟩
+
+/-- what the chain of `rs4` answers, concretely -/
+example : (chainOf rs4).map (fun ch => [200, 404, 418, 500, 302].map fun n => (evalChain ch n []).variant) =
+    some ["Ok".toList, "NotFound".toList, "ClientError".toList, "Unknown".toList, "Unknown".toList] := by
+  decide +kernel
 
 end Oas3.Props.C04
